@@ -4,6 +4,7 @@
 #pragma once
 #include "common.hpp"
 #include "NifFile.hpp"
+#include "NifUtil.hpp"
 
 #include <algorithm>
 #include <dirent.h>
